@@ -550,11 +550,72 @@ def _inlinable(fn) -> bool:
     if a.posonlyargs:
         return False
     for n in ast.walk(fn):
-        if isinstance(n, (ast.Yield, ast.YieldFrom, ast.Await, ast.Global, ast.Nonlocal)):
+        if isinstance(n, (ast.YieldFrom, ast.Await, ast.Global, ast.Nonlocal)):
             return False
         if n is not fn and isinstance(n, (*FUNC, ast.ClassDef)):
             return False
     return True
+
+
+def _is_generator(fn) -> bool:
+    return any(isinstance(n, ast.Yield) for n in _walk_no_nested(fn))
+
+
+def _expand_generator_loop(fn, loop, call, counter_target, start, is_method, caller_names):
+    """`for x in gen(args): BODY`  ->  the generator's body with every `yield v` replaced by `x = v; BODY`.
+
+    Valid when BODY has no break / continue / return (those would have to act on the generator) and the generator has no
+    return with a value and yields only as statements.  `for i, x in enumerate(gen(args), start=k)` additionally gets the
+    counter: `i = k - 1` in front, `i += 1` before each body."""
+    for n in ast.walk(ast.Module(body=loop.body, type_ignores=[])):
+        if isinstance(n, (ast.Break, ast.Continue, ast.Return)):
+            raise _Bail('loop body leaves the loop')
+    if loop.orelse:
+        raise _Bail('for-else')
+    prefix, mapping = _bind(fn, call, is_method, caller_names, fn.name)
+    body = clone(fn.body)
+    if body and isinstance(body[0], ast.Expr) and isinstance(body[0].value, ast.Constant) and isinstance(body[0].value.value, str):
+        body = body[1:]
+    for st in body:
+        for n in ast.walk(st):
+            if isinstance(n, ast.Return) and n.value is not None:
+                raise _Bail('generator returns a value')
+            if isinstance(n, ast.Yield) and not isinstance(getattr(n, '_parent', None), ast.Expr):
+                pass
+    body = [_Subst(mapping).visit(s) for s in body]
+    target = loop.target
+
+    class Y(ast.NodeTransformer):
+        def visit_Expr(self, st):  # noqa: N802
+            if isinstance(st.value, ast.Yield):
+                v = st.value.value if st.value.value is not None else ast.Constant(value=None)
+                out = []
+                if counter_target is not None:
+                    out.append(ast.copy_location(ast.AugAssign(target=ast.Name(id=counter_target, ctx=ast.Store()),
+                                                               op=ast.Add(), value=ast.Constant(value=1)), st))
+                out.append(ast.copy_location(ast.Assign(targets=[clone(target)], value=v, type_comment=None), st))
+                out.extend(clone(loop.body))
+                return out
+            return st
+    new = []
+    for st in body:
+        r = Y().visit(st)
+        new.extend(r if isinstance(r, list) else [r])
+    for st in new:
+        for n in ast.walk(st):
+            if isinstance(n, ast.Yield):
+                raise _Bail('yield used as an expression')
+            if isinstance(n, ast.Return):
+                raise _Bail('return in generator')
+    pre = list(prefix)
+    if counter_target is not None:
+        init = ast.BinOp(left=start, op=ast.Sub(), right=ast.Constant(value=1))
+        pre.append(ast.copy_location(ast.Assign(targets=[ast.Name(id=counter_target, ctx=ast.Store())], value=init,
+                                                type_comment=None), loop))
+    out = pre + new
+    for st in out:
+        ast.fix_missing_locations(st)
+    return out
 
 
 def _simple_arg(e) -> bool:
@@ -788,7 +849,35 @@ def _inline_in_body(body, fn, is_target, is_method, caller_names, counter):
             rest = st.test.values[:-1]
             st.test = rest[0] if len(rest) == 1 else ast.copy_location(ast.BoolOp(op=ast.And(), values=rest), st.test)
             st.body = [inner]
-        call, kind = _call_position(st, is_target)
+        if isinstance(st, ast.For) and _is_generator(fn):
+            gcall, ctr, start = None, None, None
+            it = st.iter
+            if isinstance(it, ast.Call) and is_target(it):
+                gcall = it
+            elif isinstance(it, ast.Call) and isinstance(it.func, ast.Name) and it.func.id == 'enumerate' and it.args and \
+                    isinstance(it.args[0], ast.Call) and is_target(it.args[0]) and isinstance(st.target, ast.Tuple) and \
+                    len(st.target.elts) == 2 and isinstance(st.target.elts[0], ast.Name):
+                gcall = it.args[0]
+                ctr = st.target.elts[0].id
+                start = next((k.value for k in it.keywords if k.arg == 'start'), None) or \
+                    (it.args[1] if len(it.args) > 1 else ast.Constant(value=0))
+            if gcall is not None:
+                try:
+                    loop = st
+                    if ctr is not None:
+                        loop = clone(st)
+                        loop.target = st.target.elts[1]
+                    new = _expand_generator_loop(fn, loop, gcall, ctr, start, is_method, caller_names)
+                    body[i:i + 1] = new
+                    counter['inlined'] += 1
+                    i += len(new)
+                    continue
+                except _Bail:
+                    counter['bailed'] += 1
+        if _is_generator(fn):
+            call, kind = None, None
+        else:
+            call, kind = _call_position(st, is_target)
         if call is not None:
             try:
                 new, tmp = _expand(fn, call, st, kind, is_method, caller_names)
@@ -920,7 +1009,7 @@ def inline_new_helpers(repo, inv: dict, log: list) -> bool:
                     def is_target(e, name=fn.name):
                         return isinstance(e.func, ast.Name) and e.func.id == name
                 counter = {'inlined': 0, 'bailed': 0}
-                single = _single_return_expr(fn)
+                single = None if _is_generator(fn) else _single_return_expr(fn)
                 if single is not None:
                     _inline_expression(fn, single, is_target, is_method, callers, counter)
                 for caller in callers:
